@@ -22,11 +22,12 @@ func (d Difference) Key() string { return d.Path + "\x00" + d.Field }
 
 // DiffOptions restrict the comparison.
 type DiffOptions struct {
-	SkipRootMeta bool            // do not compare mode, owner, mtime and xattrs of the root
-	Skip         map[string]bool // field names not to compare ("mtime" covers its sub-classes)
-	MtimeSeconds bool            // compare whole seconds only (want floor == got floor)
-	Identity     bool            // also compare inode number, link count and ctime (before/after snapshots)
-	Max          int             // stop after this many differences (0 = 200)
+	SkipRootMeta   bool            // do not compare mode, owner, mtime and xattrs of the root
+	Skip           map[string]bool // field names not to compare ("mtime" covers its sub-classes)
+	MtimeSeconds   bool            // compare whole seconds only (want floor == got floor)
+	SkipEpochMtime bool            // do not compare the mtime of a node whose own wanted mtime is exactly the epoch ("no time")
+	Identity       bool            // also compare inode number, link count and ctime (before/after snapshots)
+	Max            int             // stop after this many differences (0 = 200)
 }
 
 // MtimeField names the mtime field of a wanted time stamp: values at or beyond 2^63 ns, which
@@ -111,7 +112,9 @@ func diffNode(w, g *Node, path string, isRoot bool, o *DiffOptions, out *[]Diffe
 		if w.GID != g.GID {
 			add("gid", "want %d got %d", w.GID, g.GID)
 		}
-		if w.Sec != g.Sec || (!o.MtimeSeconds && w.Nsec != g.Nsec) {
+		if o.SkipEpochMtime && w.IsEpoch() {
+			// the node's own time only: its ancestors' and neighbours' are compared as usual
+		} else if w.Sec != g.Sec || (!o.MtimeSeconds && w.Nsec != g.Nsec) {
 			add(MtimeField(w.Sec, w.Nsec), "want %d.%09d got %d.%09d", w.Sec, w.Nsec, g.Sec, g.Nsec)
 		}
 		if !xattrsEqual(w.Xattrs, g.Xattrs) {
